@@ -32,7 +32,7 @@ check("C16", "E1 sched", "model_checking",
 
 check("C25", "E1 sched", "model_checking",
       "stateless schedule exploration (preemption-bounded DFS, ready select cases enumerated) of Elk programs using go/Channel/Mutex/RWMutex/WaitGroup/Once/select on the real VM under a controlled scheduler injected by build overlay",
-      "12 multi-threaded Elk scenarios run on the real VM with every channel, lock, wait-group, once, goroutine-start and select operation of value/channel_of_value.go, value/{mutex,rwmutex,wait_group,once}.go, vm/once.go and vm/thread.go owned by the scheduler; all schedules with <=2 (thorough 3) preemptions are enumerated and each is checked for exactly-once FIFO delivery, select readiness, close semantics, mutual exclusion, run-once, absence of deadlock and of host panics/fatals; 10 single-threaded misuse sequences must raise Elk errors.",
+      "15 multi-threaded Elk scenarios run on the real VM with every channel, lock, wait-group, once, goroutine-start and select operation of value/channel_of_value.go, value/{mutex,rwmutex,wait_group,once}.go, vm/once.go and vm/thread.go owned by the scheduler; all schedules with <=3 (thorough 4) preemptions are enumerated and each is checked for exactly-once FIFO delivery, select readiness, close semantics, mutual exclusion, run-once, absence of deadlock and of host panics/fatals; 14 single-threaded misuse sequences (also through a channel's read-only / write-only views) must raise Elk errors.",
       "interpreter code between scheduling points runs atomically; unbuffered channels are modelled by verifrt's rendezvous (the real channel is not used for them); timers not modelled; a supplementary free-running pass of the same scenarios under Go's race detector (case racepass/scenarios) reports accesses racing between scheduling points; it is sampling and decides nothing alone")
 
 check("C11", "E1 sched", "model_checking",
